@@ -309,7 +309,7 @@ def gates(c, tier):
         "corruption:no-final-newline:ref-valid:parsed": 300,
     }
     out = [f"{k}>={v} (got {c.get(k, 0)})" for k, v in need.items() if c.get(k, 0) < v]
-    for kind in ("drop-column", "bad-strand", "non-numeric", "reversed", "field-count", "gap-first"):
+    for kind in ("drop-column", "bad-strand", "non-numeric", "reversed", "field-count", "gap-first", "truncated-line", "tabs-to-blanks"):
         if not any(k.startswith(f"corruption:{kind}:ref-invalid:raised") for k in c):
             out.append(f"corruption:{kind} rejected >= 1")
     return out
